@@ -156,8 +156,8 @@ impl M {
         }
       }
     }
-    if t.src_ts != Some(SimReader::src_ts(t.w, t.sn)) {
-      return v("source-timestamp", format!("writer {} sample {}: source timestamp {:?} differs from the INFO_TS that accompanied it ({})", t.w, t.sn, t.src_ts, SimReader::src_ts(t.w, t.sn)));
+    if t.src_ts != SimReader::src_ts_opt(t.w, t.sn) {
+      return v("source-timestamp", format!("writer {} sample {}: source timestamp {:?} differs from what its message carried (INFO_TS {:?}; None = the message had no INFO_TS)", t.w, t.sn, t.src_ts, SimReader::src_ts_opt(t.w, t.sn)));
     }
     None
   }
